@@ -9,6 +9,7 @@ def run(ctx, rep):
     driver.rule_expert_table(mod, rep, "C14", rule="X-MEM")
     memmode.rule_query_mode(mod, rep)
     memmode.rule_stack_guard(mod, rep)
+    memmode.rule_stack_relative(mod, rep)
     alloc.rule_O7_bound_before_bump(mod, rep)
     lock.rule_L1_pairing(mod, rep, ctx.config)
     from ..rules import misc
